@@ -509,6 +509,20 @@ def compare(fr, op, l, r, node):
                     return not isinstance(op, ast.In)
         if isinstance(r, (bytes, str)) and not is_abs(l):
             return (l in r) if isinstance(op, ast.In) else (l not in r)
+        if isinstance(r, (bytes, bytearray)) and isinstance(l, ABits) and l.kind == "bytes":
+            lb = I.simp_bits(l.items)
+            if all(isinstance(b_, F) and b_.is_const for b_ in lb):
+                # an octet string whose bits are all constants on this path: the plain substring test
+                lc_ = bytes(int("".join(str(b_.c) for b_ in lb[i_:i_ + 8]), 2) for i_ in range(0, len(lb), 8))
+                return (lc_ in bytes(r)) if isinstance(op, ast.In) else (lc_ not in bytes(r))
+            if len(lb) == 8:
+                # one symbolic octet against a constant octet string: equal to one of its octets (decided octet by octet)
+                hit = False
+                for x_ in sorted(set(bytes(r))):
+                    if I.decide_eq(lb, x_, f"in-bytes:{node.lineno}"):
+                        hit = True
+                        break
+                return hit if isinstance(op, ast.In) else not hit
         if isinstance(r, AOpq) or isinstance(l, AOpq):
             return I.opaque("membership with opaque")
         if isinstance(r, AFin):
@@ -2135,6 +2149,11 @@ def method(fr, base, name, args, kw, n):
             raise Abort(f"ndarray const method {name}")
         if isinstance(base, BitArr):
             return bits_method(fr, ABits([cbit(x) for x in base], "ba"), name, args, kw, n)
+        if isinstance(base, (bytes, bytearray)) and name in ("index", "find", "rfind", "rindex", "count", "startswith", "endswith") and args and isinstance(args[0], ABits) and args[0].kind == "bytes":
+            ab_ = I.simp_bits(args[0].items)
+            if all(isinstance(b_, F) and b_.is_const for b_ in ab_):
+                # an octet string that is constant on this path: the plain bytes method
+                args = [bytes(int("".join(str(b_.c) for b_ in ab_[i_:i_ + 8]), 2) for i_ in range(0, len(ab_), 8))] + list(args[1:])
         if any(deep_abs(a) for a in args) or any(deep_abs(v) for v in kw.values()):
             if isinstance(base, bytes) and name == "join":
                 out = []
